@@ -4,7 +4,7 @@ import ast
 from ..core.index import AnalysisError, walk_no_defs, calls_in, call_name, kwarg
 from ..core.cfg import node_calls
 from ..core import norm
-from .common import (inline_private, WSP, get_analysis, is_self_attr, self_call, stmt_key, find_assign_nodes, is_test_module)
+from .common import (inline_private, WSP, WSS, WSC, get_analysis, is_self_attr, self_call, stmt_key, find_assign_nodes, is_test_module)
 
 META = {
     "explanation": "Guard-dominance rules: the receive-side limit comparison (strict, disabled at 0) sits in "
@@ -408,7 +408,102 @@ def rule_bounded_decompress(ctx):
             ctx.ob("onFrameData: nothing of the over-limit message is passed on", bool(ok), "handler falls through with the partial payload", fn.loc(hs[0].ast))
 
 
+def rule_message_start(ctx, rule_id="C16.4-bounded-decompress-pairing"):
+    """The decompression limit is per MESSAGE: whatever a previous message inflated to must not count against the next one, with or without
+    context takeover.  PerMessageDeflate.start_decompress_message is evaluated cell-wise (sa.core.tiny) over (role, inflater kept from the
+    previous message or not, no-context-takeover of the receiving direction) with a stale running total: afterwards the total is 0, and the
+    inflater is a fresh one exactly when there was none or the direction runs without context takeover."""
+    from ..core.tiny import Tiny, Sym
+    import itertools
+    ctx.rule(rule_id)
+    cls = ctx.program.cls("autobahn.websocket.compress_deflate.PerMessageDeflate")
+    fn = cls.methods["start_decompress_message"]
+    ctx.analysed(fn)
+    # the per-message running total: the attribute this method initialises with the integer 0 (as _accounting_cells identifies it)
+    zeros = sorted({norm.text(st_.targets[0]) for st_ in walk_no_defs(fn.node) if isinstance(st_, ast.Assign) and len(st_.targets) == 1 and is_self_attr(st_.targets[0])
+                    and isinstance(st_.value, ast.Constant) and type(st_.value.value) is int and st_.value.value == 0})
+    if not zeros:
+        return  # no per-message accounting in this class (nothing to carry over): the bounded-decompress rules below decide what it does instead
+    ctx.require(len(zeros) == 1, f"per-message running total not identified ({zeros})")
+    TOT = zeros[0]
+    from .common import inline_private
+    probs, n = [], 0
+    try:
+        for server, kept, nct in itertools.product((True, False), (True, False), (True, False)):
+            old = Sym("inflater-of-the-previous-message") if kept else None
+            fresh = []
+
+            def orc(f_, a_, k_=None):
+                if f_.endswith("decompressobj"):
+                    fresh.append(Sym(f"fresh-inflater(wbits={a_[0] if a_ else None})"))
+                    return fresh[-1]
+                return Sym(f"<{f_}>")
+            env = {"self": Sym("pmce"), "self._is_server": server, "self._decompressor": old, TOT: 77, "self._oversized": False, "self.max_message_size": 100,
+                   "self.client_no_context_takeover": nct if server else (not nct), "self.server_no_context_takeover": (not nct) if server else nct,
+                   "self.client_max_window_bits": 10, "self.server_max_window_bits": 12}
+            t = Tiny(env, default_call=orc, inline_self=inline_private(ctx, cls), opaque_globals=True)
+            r = t.run([x for x in fn.node.body if not (isinstance(x, ast.Expr) and isinstance(x.value, ast.Constant))])
+            n += 1
+            tag = f"{'server' if server else 'client'}, inflater {'kept' if kept else 'absent'}, receiving direction {'without' if nct else 'with'} context takeover"
+            if r[0] == "raise":
+                probs.append(f"{tag}: raises {r[1]}")
+                continue
+            if t.env.get(TOT) != 0:
+                probs.append(f"{tag}: the running total of the previous message ({t.env.get(TOT)}) is carried into the next message")
+            now = t.env.get("self._decompressor")
+            want_fresh = (not kept) or nct
+            if want_fresh != (bool(fresh) and now is fresh[-1]) or (not want_fresh and now is not old):
+                probs.append(f"{tag}: inflater afterwards {now}, expected {'a fresh one' if want_fresh else 'the kept one'}")
+            if fresh and fresh[-1].name != f"fresh-inflater(wbits={-(10 if server else 12)})":
+                probs.append(f"{tag}: {fresh[-1].name}, expected the window of the peer's direction as raw-deflate wbits {-(10 if server else 12)}")
+    except AnalysisError as e:
+        raise AnalysisError(f"[{rule_id}] start_decompress_message outside the modelled subset: {e}")
+    ctx.ob(f"start_decompress_message: the per-message total starts at 0 for every message; the inflater is renewed exactly when the direction has no context takeover [{n} cells]",
+           not probs, "; ".join(probs[:2]), fn.loc())
+
+
+def rule_option_plumbing(ctx):
+    """"With a maximum frame or message payload size configured ...": the limit the application configures must be the limit the protocol
+    enforces.  setProtocolOptions of both factories is evaluated (sa.core.tiny) with exactly one of the two size options given: that
+    attribute, and only that one, takes the value."""
+    from ..core.tiny import Tiny, Sym
+    ctx.rule("C16.5-configured-limit-is-the-enforced-limit")
+    probs, n = [], 0
+    for clsq in (WSS.replace("ServerProtocol", "ServerFactory"), WSC.replace("ClientProtocol", "ClientFactory")):
+        cls = ctx.program.cls(clsq)
+        fn = ctx.program.lookup_method(cls, "setProtocolOptions")
+        ctx.require(fn is not None, f"{clsq}.setProtocolOptions not found")
+        ctx.analysed(fn)
+        params = fn.params()[1:] + [a.arg for a in fn.node.args.kwonlyargs]
+        reads = {x.attr for x in ast.walk(fn.node) if is_self_attr(x) and ctx.program.lookup_method(cls, x.attr) is None}
+        body = [x for x in fn.node.body if not (isinstance(x, ast.Expr) and isinstance(x.value, ast.Constant))]
+        for opt in ("maxFramePayloadSize", "maxMessagePayloadSize"):
+            ctx.require(opt in params, f"{clsq}.setProtocolOptions has no parameter {opt}")
+            env = {"self": Sym("factory")}
+            env.update({f"self.{r_}": 0 for r_ in reads})
+            env.update({p_: None for p_ in params})
+            a_ = fn.node.args
+            pos = [x.arg for x in a_.posonlyargs + a_.args]
+            for nm_, d_ in list(zip(pos[len(pos) - len(a_.defaults):], a_.defaults)) + [(k_.arg, d_) for k_, d_ in zip(a_.kwonlyargs, a_.kw_defaults) if d_ is not None]:
+                if isinstance(d_, ast.Constant):
+                    env[nm_] = d_.value  # the signature's own default
+            env[opt] = 4096
+            try:
+                t = Tiny(env, default_call=lambda f_, a_, k_=None: Sym(f"<{f_}>"), model_types=True, opaque_globals=True)
+                r = t.run(body)
+            except AnalysisError as e:
+                raise AnalysisError(f"[C16.5-configured-limit-is-the-enforced-limit] {clsq}.setProtocolOptions outside the modelled subset: {e}")
+            n += 1
+            other = "maxMessagePayloadSize" if opt == "maxFramePayloadSize" else "maxFramePayloadSize"
+            get = lambda nm: t.env.get(f"self.{nm}", t.env["self"].attrs.get(nm))
+            if r[0] == "raise" or get(opt) != 4096 or get(other) != 0:
+                probs.append(f"{cls.name}.setProtocolOptions({opt}=4096): {opt} = {get(opt)}, {other} = {get(other)} afterwards ({r[0]} {str(r[1])[:80]})")
+    ctx.ob(f"setProtocolOptions: each payload size option sets its own limit and only that one, on both factories [{n} cells]", not probs, "; ".join(probs[:2]), fn.loc())
+
+
 def run(ctx):
+    rule_option_plumbing(ctx)
+    rule_message_start(ctx)
     rule_early_check(ctx)
     rule_gates(ctx)
     rule_send_refusal(ctx)
